@@ -115,6 +115,11 @@ func ops() []opDesc {
 		for _, o := range []string{"abs", "neg", "ceil", "floor", "trunc", "nearest"} {
 			out = append(out, opDesc{spec: o, t: t, wasm: t + "." + o, res: t, vec: shape[t] + "." + o})
 		}
+		// IEEE arithmetic (bit-level definitions are slow to evaluate: smaller operand tables)
+		for _, o := range []string{"add", "sub", "mul", "div"} {
+			out = append(out, opDesc{spec: o, t: t, wasm: t + "." + o, res: t, binary: true, vec: shape[t] + "." + o, heavy: true})
+		}
+		out = append(out, opDesc{spec: "sqrt", t: t, wasm: t + ".sqrt", res: t, vec: shape[t] + ".sqrt", heavy: true})
 		for _, it := range []string{"32", "64"} {
 			for _, sg := range []string{"s", "u"} {
 				out = append(out, opDesc{spec: "trunc_" + sg + it, t: t, wasm: "i" + it + ".trunc_" + t + "_" + sg, res: "i" + it})
@@ -277,6 +282,14 @@ func Cases(args []string) {
 			continue
 		}
 		pb := pa
+		if d.t[0] == 'f' && d.heavy { // arithmetic: every left operand against a rotating dozen of right operands
+			for i, a := range pa {
+				for k := 0; k < 12; k++ {
+					emit(d, a, pa[(i*7+k*5+len(d.spec))%len(pa)])
+				}
+			}
+			continue
+		}
 		if d.t[0] == 'f' && len(pa) > 24 { // float binaries: a subset of right operands
 			pb = append(append([]uint64{}, pa[:18]...), pa[len(pa)-2*nRand:]...)
 		}
